@@ -37,11 +37,19 @@ def gen_signal(st, n):
         vals = [float(st.draw(-30, 30, "v")) for _ in range(n)]
     else:
         vals = [0.0] * n
-    form = st.weighted((3, 2, 2), "form")          # float array, list, int array (integer-valued only)
+    form = st.weighted((6, 4, 4, 1, 1, 1), "form")  # float64 array, list, int64, int32, float32, list of ints
+    integral = all(float(v).is_integer() for v in vals)
     if form == 1:
         return vals, list(vals), "list"
-    if form == 2 and all(float(v).is_integer() for v in vals):
+    if form == 2 and integral:
         return vals, np.array(vals, dtype=np.int64), "int64"
+    if form == 3 and integral:
+        return vals, np.array(vals, dtype=np.int32), "int32"
+    if form == 4:
+        v32 = [float(np.float32(v)) for v in vals]           # the signal IS its float32 values
+        return v32, np.array(v32, dtype=np.float32), "float32"
+    if form == 5 and integral:
+        return vals, [int(v) for v in vals], "list-of-int"
     return vals, np.array(vals, dtype=np.float64), "float64"
 
 
@@ -49,12 +57,15 @@ def gen_snr(st, n, vals):
     mode = st.weighted((3, 3, 2, 2, 2), "snr-mode")  # scalar dB, scalar linear, per-sample dB, per-sample linear, std
     a = np.asarray(vals, dtype=float)
     sp = float(np.mean(a ** 2))
+    wrap = st.weighted((6, 1, 1), "snr-type")        # plain Python number, NumPy scalar, NumPy 0-d array
+    def typed(v):
+        return v if wrap == 0 else (np.float64(v) if wrap == 1 else np.array(float(v)))
     if mode == 0:
         snr = st.pick((0, 10, 20, 40, 3, -10, 13.7), "snr")
-        return {"snr": snr, "db": True}, np.full(n, (sp / 10 ** (snr / 10)) ** 0.5), f"snr={snr}dB"
+        return {"snr": typed(snr), "db": True}, np.full(n, (sp / 10 ** (snr / 10)) ** 0.5), f"snr={snr}dB"
     if mode == 1:
-        snr = st.pick((1.0, 2.0, 10.0, 100.0, 0.5, 37.5), "snr")
-        return {"snr": snr, "db": False}, np.full(n, (sp / snr) ** 0.5), f"snr={snr} linear"
+        snr = st.pick((1.0, 2.0, 10.0, 100.0, 0.5, 37.5, 4), "snr")
+        return {"snr": typed(snr), "db": False}, np.full(n, (sp / snr) ** 0.5), f"snr={snr} linear"
     if mode in (2, 3):
         db = mode == 2
         if db:
@@ -133,6 +144,7 @@ def run_seam_case(st, keep_log=False, params_long=False):
                 rx, ry = call_noise(via, signal, spec, x_in)
         finally:
             seam.uninstall()
+        ry = np.asarray(ry, dtype=float) if isinstance(ry, np.ndarray) else ry
         if not isinstance(ry, np.ndarray) or ry.shape != (n,):
             raise Violation("C15/length-or-type-changed", key, f"noise on {n} samples returned {type(ry).__name__} "
                             f"of shape {getattr(ry, 'shape', None)} ({case})")
@@ -154,7 +166,8 @@ def run_seam_case(st, keep_log=False, params_long=False):
                                 f"{n} samples: the noise terms of different samples cannot be independent ({case})")
             noise_term = ry - a
             want = expected_std * z
-            tol = 1e-9 * max(1.0, float(np.max(np.abs(want))) if n else 1.0, float(np.max(np.abs(a))) if n else 1.0)
+            rel = 3e-6 if form == "float32" else 1e-9       # float32 input: power and sum are computed in float32
+            tol = rel * max(1.0, float(np.max(np.abs(want))) if n else 1.0, float(np.max(np.abs(a))) if n else 1.0)
             if not np.all(np.abs(noise_term - want) <= tol):
                 i = int(np.argmax(np.abs(noise_term - want)))
                 loc = np.asarray(c["loc"], dtype=float)
